@@ -7,6 +7,11 @@
     byte string that has to be hashed / encrypted / multiplied; harness/c15_oracle.py applies the reference primitive
     (harness/ref.py) and hands the value back - Python holds no BIP38 structure.  The BIP's published vectors go
     through the same specification first (a disagreement there is a machinery failure).
+(G)/(V) environment: TLC enumerates the behaviours of spec/Bip38Env.tla (Seed(x) / SaveState / RestoreState on random and
+    numpy.random, forked children, interleaved with generation requests; MC_Bip38Env model-checks them); a cover of the
+    behaviours that would expose a generator drawing from the ambient state (every way the state repeats x every request
+    kind) plus some quiet ones is replayed around the real calls in fresh interpreters, and TLC judges the recorded
+    entropy, intermediate codes, encrypted keys, confirmation codes, addresses and private keys (EnvJudge).
 (V) freshness: histories of generation requests, each recorded in a freshly started interpreter
     (harness/c15_trace.py), are validated by TLC against the entropy ledger of Bip38.tla.
 """
@@ -485,13 +490,52 @@ def show(codes):
     return str(codes)
 
 
+ENV_L = 4
+MECH = {'seed1': 'seed', 'seed2': 'seed', 'restore': 'restore', 'forknew': 'fork'}
+GEN_ACTS = ('inter', 'interlot', 'new', 'forknew', 'newx', 'key', 'hdkey')
+
+
+def env_behaviours():
+    """(G) the behaviours of spec/Bip38Env.tla, enumerated by TLC, each with the model's answer whether it would expose a
+    generator that draws from the ambient pseudo-random state."""
+    out = c15_oracle.tlc_eval_fast('Bip38Eval', [{'k': 'envgen', 'L': ENV_L, 'facts': []}], 'Bip38Eval.cfg')
+    behs = sorted((tuple(x['b']), bool(x['exposes']), x['kind']) for x in out[0]['behs'])
+    if len(behs) < 100 or not any(e for _, e, _ in behs) or all(e for _, e, _ in behs):
+        raise common.MachineryError('Bip38Env: implausible set of behaviours (%d)' % len(behs))
+    return behs
+
+
+def env_jobs(behs, rng, thorough):
+    """Behaviours to replay: exposing ones covering every (way the ambient state repeats) x (request kind), scrypt-cheap
+    ones preferred, plus some that leave the ambient state alone."""
+    cost = lambda b: sum(a in ('inter', 'interlot') for a in b) + 0.5 * any(a in ('new', 'forknew', 'newx') for a in b)
+    exposing = [(b, k) for b, e, k in behs if e]
+    quiet = [b for b, e, _ in behs if not e]
+    rng.shuffle(exposing)
+    rng.shuffle(quiet)
+    chosen, covered = [], set()
+    for b, kind in sorted(exposing, key=lambda x: cost(x[0])):
+        # class of an exposing behaviour: (the ways it touches the ambient state, the kind of request the model catches)
+        mechs = frozenset(MECH[m] for m in b if m in MECH)
+        if (mechs, kind) not in covered and (thorough or len(mechs) == 1):
+            covered.add((mechs, kind))
+            chosen.append(b)
+    exposing = [b for b, _ in exposing]
+    chosen += [b for b in exposing if b not in chosen][:60 if thorough else 0]
+    chosen += sorted(quiet[:40], key=cost)[:20 if thorough else 3]
+    return [{'env': list(b), 'seeds': {'seed1': rng.randrange(1, 2 ** 31), 'seed2': rng.randrange(1, 2 ** 31)},
+             'passphrase': rng.choice(['pw', '123456', UNI_PWS[0]]), 'network': rng.choice(NETS_QUICK), 'compressed': bool(i % 2),
+             'supplied': bytes(rng.getrandbits(8) for _ in range(24)).hex()} for i, b in enumerate(chosen)]
+
+
 def run(replay=None):
     ck = Check(PID)
     thorough = tier() == 'thorough'
     rng = ck.rng
     ck.rule = ('one case = one call of the implementation (Key/HDKey.encrypt, Key/HDKey(token, password, network), bip38_decrypt, '
                'bip38_intermediate_password, bip38_create_new_encrypted_wif) judged by TLC against Bip38.tla, or one generation '
-               'request of a recorded history; class = (call kind, route, network, token prefix / compression, relation of the '
+               'request of a recorded history or of a replayed behaviour of Bip38Env (Seed / SaveState / RestoreState / fork on the ambient '
+               'pseudo-random generators around the requests; class = the behaviour); class = (call kind, route, network, token prefix / compression, relation of the '
                'passphrase to the right one [same, other normal form, wrong], passphrase class [ascii, empty, nfc, non-nfc, astral], '
                'key class, lot/sequence class)')
     ck.assumptions = ['the reference primitives of harness/ref.py (hashlib sha256/ripemd160/scrypt, pure-Python secp256k1 and AES, '
@@ -504,10 +548,13 @@ def run(replay=None):
     ref.selftest()
     t0 = time.time()
     timing = {}
-    bg = ThreadPoolExecutor(max_workers=3)
+    bg = ThreadPoolExecutor(max_workers=5)
     fut_model = bg.submit(c15_oracle.model_check_graph, 'MC_Bip38', 'MC_Bip38_thorough.cfg' if thorough else 'MC_Bip38.cfg',
                           ['Encrypt', 'Gen', 'GenerateExplicit', 'DecryptAct'], 16 if thorough else 4)
     fut_jvm = bg.submit(c15_oracle.prepare_jvm, 'Bip38Eval', 'Bip38Eval.cfg')
+    fut_envmodel = bg.submit(common.model_check, 'MC_Bip38Env', 'MC_Bip38Env_thorough.cfg' if thorough else 'MC_Bip38Env.cfg',
+                             None, 2, 1800, ['Step'])
+    fut_behs = bg.submit(env_behaviours)
 
     # ---------------- drive the implementation
     if replay:
@@ -515,10 +562,14 @@ def run(replay=None):
         nonec = [job] if kind == 'nonec' else []
         ec = [job] if kind == 'ec' else []
         traces = [job] if kind == 'trace' else []
+        envs = [job] if kind == 'env' else []
+        behs = []
     else:
         nonec, ec, traces = scenarios(rng, thorough)
+        behs = fut_behs.result()
+        envs = env_jobs(behs, rng, thorough)
     with ThreadPoolExecutor(max_workers=8) as tp:
-        fut_traces = [tp.submit(run_trace, t) for t in traces]
+        fut_traces = [tp.submit(run_trace, t) for t in traces + envs]
         jobs = [('ec', j) for j in ec] + [('nonec', j) for j in nonec]         # longest jobs first
         results = common.pmap(_drive, jobs, procs=min(common.NCPU, 12)) if jobs else []
         trace_res = [f.result() for f in fut_traces]
@@ -526,6 +577,15 @@ def run(replay=None):
     recs = []
     for ji, ((kind, job), res) in enumerate(zip(jobs, results)):
         recs += records_nonec(job, res, ji) if kind == 'nonec' else records_ec(job, res, ji)
+    env_res = trace_res[len(traces):]
+    trace_res = trace_res[:len(traces)]
+    for job, tr in zip(envs, env_res):      # replayed behaviours of Bip38Env: environment actions around the real requests
+        case = {'kind': 'env', 'job': job}
+        for e in tr['events']:
+            if e.get('refused'):
+                ck.violation(None, 'clause generation-request-refused; %s in %s' % (e['desc'], ' ; '.join(tr['desc'])), case)
+        evs = [{k: e[k] for k in ('op', 'explicit', 'arg', 'out', 'code', 'outs')} for e in tr['events'] if not e.get('refused')]
+        recs.append(({'k': 'env', 'events': evs}, ('env',) + tuple(job['env']), tr['desc'], case))
     ntrace_events = 0
     for job, tr in zip(traces, trace_res):
         case = {'kind': 'trace', 'job': job}
@@ -558,6 +618,12 @@ def run(replay=None):
         ({'k': 'trace', 'events': [ev('new', x24, arg=x24), ev('new', y24, arg=x24)]}, 'explicit-entropy-not-honoured', 2, []),
         ({'k': 'trace', 'events': [ev('new', x24), ev('new', y24), ev('new', x24)]}, 'ok', 0, ['generator-entropy-drawn-once-per-process']),
         ({'k': 'trace', 'events': [ev('new', x24), ev('new', y24), ev('new', y24)]}, 'entropy-reused', 3, []),
+        ({'k': 'env', 'events': [dict(ev('new', x24), outs=[[1, 2], [3]]), dict(ev('key', k32), outs=[k32]), dict(ev('new', x24), outs=[[5], [6]])]},
+         'entropy-reused', 3, []),
+        ({'k': 'env', 'events': [dict(ev('new', x24), outs=[[1, 2], [3]]), dict(ev('new', y24), outs=[[7], [3]])]},
+         'same-output-for-separate-requests', 2, []),
+        ({'k': 'env', 'events': [dict(ev('new', x24, arg=x24), outs=[[1], [3]]), dict(ev('new', x24, arg=x24), outs=[[1], [3]]),
+                                 dict(ev('new', y24), outs=[[8], [9]])]}, 'ok', 0, []),
         ({'k': 'dec', 'route': 'Key', 'net': 'bitcoin', 'tok': A(v0['tok']), 'pw': A(v0['pw'] + 'x'), 'pwbytes': False,
           'got': {'ok': True, 'priv': list(bytes.fromhex(v0['priv'])), 'comp': False, 'lot': 0, 'seq': 0}},
          'decrypt-must-fail-but-returned-a-key', 0, []),
@@ -574,6 +640,13 @@ def run(replay=None):
 
     retry = []          # spec -> code: where the code's token is not the specified one, the specified token is decrypted too
     for (rec, klass, desc, case), o in zip(recs, verdicts):
+        if rec['k'] == 'env':
+            ck.traces += 1
+            ck.case(klass)
+            if o['v'] != 'ok':
+                ck.violation(None, 'clause env-%s; request %d of the behaviour [%s] handed out entropy / a code / a key / an address that an '
+                             'earlier request of this process had handed out' % (o['v'], o['at'], ' ; '.join(desc)), case)
+            continue
         if rec['k'] == 'trace':
             ck.traces += 1
             for e in rec['events']:
@@ -617,12 +690,16 @@ def run(replay=None):
                 json.dumps(rec)[:200], want, at, devs, {k: o[k] for k in ('v', 'dev', 'at', 'devs')}))
     ck.notes['binding_canaries_rejected_as_expected'] = len(canaries)
     ck.model(fut_model.result())
+    ck.model(fut_envmodel.result())
     bg.shutdown()
     timing['wait_model_s'] = round(time.time() - t0 - timing['drive_s'] - timing['judge_s'] - timing['retry_s'], 1)
     timing['round_s'] = oracle.round_times
     ck.notes['timing'] = timing
     for r, _, d, _ in recs[:2] + recs[len(recs) // 3:len(recs) // 3 + 2] + recs[-3:]:
         ck.sample({'case': d if isinstance(d, str) else d[:4], 'record_kind': r['k']}, limit=8)
+    ck.notes['environment'] = {'behaviours_enumerated_by_tlc': len(behs), 'of_which_expose_an_ambient_generator': sum(e for _, e, _ in behs),
+                               'replayed': len(envs), 'replayed_exposing': sum(1 for j in envs if tuple(j['env']) in set(b for b, e, _ in behs if e)),
+                               'replayed_behaviours': [' '.join(j['env']) for j in envs]}
     ck.notes['scenarios'] = {'without_ec_multiplication': len(nonec), 'ec_multiplied': len(ec), 'histories': len(traces),
                              'history_requests': ntrace_events, 'spec_tokens_decrypted_by_code': len(retry)}
     ck.notes['oracle'] = {'question_rounds_max': oracle.rounds, 'tlc_batches': oracle.tlc_runs,
